@@ -1,3 +1,18 @@
 -- root of the library: everything the checks build
 import CtyModel.Props.C07
 import CtyModel.Props.C03
+import CtyModel.Props.C08
+import CtyModel.Props.C10
+import CtyModel.Props.C11
+import CtyModel.Props.C14
+import CtyModel.Props.C18
+import CtyModel.Props.C05
+import CtyModel.Props.C04
+import CtyModel.Props.C16
+import CtyModel.Props.C15
+import CtyModel.Props.C13
+import CtyModel.Props.C06
+import CtyModel.Props.C20
+import CtyModel.Props.C01
+import CtyModel.Props.C12
+import CtyModel.Props.C19
